@@ -16,6 +16,7 @@ Arguments tl_try : simpl never.
 Arguments tl_rel_raises : simpl never.
 Arguments normalise : simpl never.
 Arguments faulty : simpl never.
+Arguments intr : simpl never.
 Arguments enabled : simpl never.
 Arguments step : simpl never.
 Arguments run_alone : simpl never.
@@ -45,7 +46,7 @@ Definition mu' (pc : pc) (nw : N) : nat :=
   | PTLAcq a dl => (5 * rem 0 0 + 14 + match dl with Some D => if (D <=? nw)%N then 0 else 1 | None => 0 end)%nat
   | POpen a => (5 * rem (a_start a) nw + 5)%nat
   | PFlock a d => (5 * rem (a_start a) nw + 4)%nat
-  | PCloseF a d => if ub then 8%nat else (5 * rem (a_start a) nw + 3)%nat
+  | PCloseF a d _ => if ub then 8%nat else (5 * rem (a_start a) nw + 3)%nat
   | PSleep a w => if w <=? nw then (5 * rem (a_start a) nw + 6)%nat else (5 * rem (a_start a) w + 7)%nat
   | PCleanRel _ _ => 1%nat
   | _ => 0%nat
@@ -99,7 +100,7 @@ Lemma mu_dec s : Phase s ->
   (enabled s t = false -> forall w, deadline s t = Some w -> (mu (set_now s (N.max (now s) w)) < mu s)%nat).
 Proof.
   intros [a dl Ht Ha F Ho Htm|a Ht Ha F Ho Hfd Htm Htry|a w Ht Ha F Ho Hfd Htm Hb Hw Htry|a d Ht Ha F Ho Hfd Htm Htry
-         |a d Ht Ha F Ho Hfd Htm R Htry|a b Ht Ha F Ho Hfd Htm R1 R2 Htry];
+         |a d i Ht Ha F Ho Hfd Htm R Hi Htry|a b Ht Ha F Ho Hfd Htm R1 R2 Htry];
     pose proof (thr_pc _ _ _ _ Ht) as Tpc; pose proof Ha as (Ao & Am & Ab & At & Ap & As);
     assert (Hnd : is_dead s t = false) by (apply (not_dead s0 t o Halive s _ _ _ F Ht)).
   - (* PTLAcq *)
@@ -136,8 +137,9 @@ Proof.
     rewrite En, (no_fault _ _ _ KLock F) in E. destruct ub; [discriminate|]. lia.
   - (* PCloseF *)
     assert (En : enabled s t = true) by (eapply (enabled_simple s0 t o Halive s _ _ _ F Ht); exact I).
-    split; [|congruence]. intros _. rewrite (step_closef _ _ a d En Tpc). cbn.
-    rewrite (no_fault _ _ _ KClose F).
+    assert (i = false) by (destruct i; auto; exfalso; apply Hi; auto). subst i.
+    split; [|congruence]. intros _. rewrite (step_closef _ _ a d false En Tpc). cbn.
+    rewrite (no_fault _ _ _ KClose F). cbn [orb].
     match goal with |- (mu (after_attempt ?s1 t a) < _)%nat =>
       assert (N1 : now s1 = now s) by (rewrite now_k_close; reflexivity);
       assert (O1 : o_own (objs s1 (a_o a)) = Some t) by (rewrite objs_k_close; cbn; rewrite Ao, Ho; reflexivity);
@@ -153,7 +155,7 @@ Qed.
 Lemma acq_terminates fuel : forall s, Phase s -> (mu s <= fuel)%nat -> snd (run_alone fuel s t) <> ROutOfFuel.
 Proof.
   induction fuel as [|f IH]; intros s P Hm.
-  - exfalso. destruct P as [a dl Ht|a Ht|a w Ht|a d Ht|a d Ht|a b Ht]; unfold mu in Hm; rewrite (thr_pc _ _ _ _ Ht) in Hm; cbn in Hm;
+  - exfalso. destruct P as [a dl Ht|a Ht|a w Ht|a d Ht|a d i Ht|a b Ht]; unfold mu in Hm; rewrite (thr_pc _ _ _ _ Ht) in Hm; cbn in Hm;
       try lia. destruct (w <=? now s); lia. destruct ub; lia.
   - pose proof (phase_not_done _ _ _ _ _ _ _ _ _ P) as Hnd. destruct (mu_dec s P) as [M1 M2].
     destruct (phase_step s0 t o m b' tm' poll skip Halive Hh0 s P) as [(En & r & Fin & Hd & Hl)|[(En & P')|[(En & w & Hw & P')|(En & Hdl & B)]]].
